@@ -5,7 +5,7 @@
 (* a TLA+ string, so B("GET") converts a literal once through a table of  *)
 (* the 95 printable ASCII characters.                                      *)
 (***************************************************************************)
-EXTENDS Naturals, Integers, Sequences, FiniteSets, SequencesExt, TLC
+EXTENDS Naturals, Integers, Sequences, FiniteSets, FiniteSetsExt, SequencesExt, TLC
 
 Byte == 0..255
 
@@ -80,7 +80,7 @@ SplitOn(s, c) ==
 Split2(s, c) ==
     LET S == {i \in 1..Len(s) : s[i] = c}
     IN IF S = {} THEN <<s>>
-       ELSE LET i == CHOOSE j \in S : \A k \in S : j <= k
+       ELSE LET i == Min(S)
             IN <<SubSeq(s, 1, i - 1), SubSeq(s, i + 1, Len(s))>>
 
 Join(ss, sep) ==
@@ -92,8 +92,7 @@ StartsWith(s, p) == Len(p) <= Len(s) /\ SubSeq(s, 1, Len(p)) = p
 TrimBy(s, IsWs(_)) ==
     LET keep == {i \in 1..Len(s) : ~IsWs(s[i])}
     IN IF keep = {} THEN <<>>
-       ELSE SubSeq(s, CHOOSE i \in keep : \A k \in keep : i <= k,
-                      CHOOSE i \in keep : \A k \in keep : i >= k)
+       ELSE SubSeq(s, Min(keep), Max(keep))
 TrimAsciiWs(s) == TrimBy(s, IsAsciiWs)
 
 \* Lexicographic order on byte strings (code-point order).
@@ -101,7 +100,7 @@ LexLess(a, b) ==
     LET n == IF Len(a) < Len(b) THEN Len(a) ELSE Len(b)
         D == {i \in 1..n : a[i] # b[i]}
     IN IF D = {} THEN Len(a) < Len(b)
-       ELSE LET i == CHOOSE j \in D : \A k \in D : j <= k IN a[i] < b[i]
+       ELSE LET i == Min(D) IN a[i] < b[i]
 LexLeq(a, b) == a = b \/ LexLess(a, b)
 SortLex(ss) == SortSeq(ss, LexLess)
 
